@@ -2162,7 +2162,8 @@ class FileHashStore(HashStore):
 
         :return: De-duplicated list of hash algorithms.
         """
-        algorithm_list_to_calculate = self.default_algo_list
+        # Copy the default list so that a request does not alter the store's defaults
+        algorithm_list_to_calculate = list(self.default_algo_list)
         if checksum_algorithm is not None:
             self._clean_algorithm(checksum_algorithm)
             if checksum_algorithm in self.other_algo_list:
